@@ -6,7 +6,7 @@ import "sync"
 // check, globals, message ids) by two goroutines at once, under the happens-before check of every
 // heap access and under both run-queue disciplines: independent compilations share no
 // unsynchronised memory, and each yields what it yields alone.
-func H_compileRace(a, b int) { h_compileRace(a, b, true, true) }
+func H_compileRace(a, b int)                 { h_compileRace(a, b, true, true) }
 func H_compileRaceDbg(a, b int, sc, rt bool) { h_compileRace(a, b, sc, rt) }
 func h_compileRace(a, b int, sc, rt bool) {
 	compile := func(t int) string {
